@@ -7,7 +7,7 @@ class Contract:
     def __init__(self, file, qualname, params, returns=None, requires=(), ensures=(), raises=None,
                  ensures_exc=None, modifies=(), loops=None, pure=False, fresh_result=False,
                  props=(), assumed=False, note="", types=None, locals_types=None, inline_ok=False,
-                 allow_exc=()):
+                 allow_exc=(), shards=1):
         self.file = file
         self.qualname = qualname
         self.params = dict(params)  # name -> Ty (or ('opt', Ty))
@@ -25,6 +25,7 @@ class Contract:
         self.note = note
         self.locals_types = dict(locals_types or {})
         self.allow_exc = tuple(allow_exc)
+        self.shards = shards
 
     @property
     def key(self):
